@@ -389,6 +389,9 @@ class Recfile(object):
                 result = self._read_columns(colnums, rows)
 
         if isscalar:
+            if columns is None:
+                # the column was given with the fields= keyword
+                columns = fields
             result = result[columns]
         elif split:
             result = split_fields(result)
